@@ -214,6 +214,23 @@ theorem C13_var_trace_ok {cfg : Cfg (Sh V (V × V)) (Th (varObj V zero init).WOp
 
 end Var
 
+/-! ## Event (`event_impl.go`): a `Variable[bool]` whose transformation is `current || new`
+
+Every clause, stated for the Event explicitly (the twin of the Variable and Set statements): the
+protocol is the Variable's (`event` embeds `Variable[bool]`, `OnTrigger` is `OnUpdate`, `Trigger` is
+`Set(true)`: `C13_skeleton_type_event`, `C13_skeleton_event_*`). -/
+
+/-- The whole C13 predicate holds for every `OnUpdate` / `OnTrigger` subscription of an Event at quiescence;
+its callbacks never overlap and none starts after its unsubscribe call returned, in every reachable
+configuration. -/
+theorem C13_event_trace_ok {cfg : Cfg (Sh Bool (Bool × Bool)) (Th eventObj.WOp (Bool × Bool))}
+    (h : Reachable eventObj cfg) {c : Nat} (hc : c < cfg.1.ncb) :
+    exclusive (cfg.1.cbs c).evs = true ∧ noneAfterUnsub (cfg.1.cbs c).evs = true ∧
+    chainFrom false (notes (cfg.1.cbs c).evs) = true ∧
+    (Quiescent cfg.2 → varOk false (decide (c ∈ cfg.1.listed)) cfg.1.st (cfg.1.cbs c).evs = true) :=
+  ⟨C13_callbacks_exclusive _ h c, C13_none_after_unsubscribe_returned _ h c, C13_chain false false h hc,
+    fun hq => C13_var_trace_ok false false h hq hc⟩
+
 /-! ## Set -/
 
 /-- **C13 set fold, sequentially**: the mutation `Apply` / `Compute` / the repaired `Replace` report
@@ -245,6 +262,19 @@ theorem C13_replace_self (init s : List Nat) :
   rw [sameSet_iff]
   intro x
   exact (replaceMut_fold s s x).symm
+
+/-- `Set.Decode` (deserialisation: the decoded elements are merged into the contents under the value
+mutex only — no update-order mutex, no id, no callback; `C13_skeleton_set_Decode`) is not one of the
+writers the property quantifies over, and must not be used on a set that already has subscribers:
+a subscriber of `{1}` folds to `{1}` while the contents after `Decode({2})` are `{1,2}`, and a later
+`Delete(2)` reports a deletion of something that was never reported as added. -/
+def decodeMerge (s xs : List Nat) : List Nat := s ++ xs.filter (fun x => !s.contains x)
+
+theorem C13_decode_is_not_a_writer_witness :
+    decodeMerge [1] [2] = [1, 2] ∧ sameSet (foldNotes [([1], [])]) (decodeMerge [1] [2]) = false ∧
+      (setObj []).upd (decodeMerge [1] [2]) (.apply ([], [2])) = .change [1] ([], [2]) ∧
+      trueDiffs [([1], []), ([], [2])] = false :=
+  ⟨by decide, by decide, rfl, by decide⟩
 
 /-- **C13 set fold.** At quiescence, folding the mutations reported to a subscription that was never
 unsubscribed (starting from the empty set) reproduces the set's contents. -/
@@ -431,6 +461,17 @@ theorem C13_directed_logs_ok (event : Bool) (lines : List (List String)) (c : Na
   intro d
   have h := C13_directed_reachable Dir.varO (Dir.varFmt event) lines
   exact ⟨C13_callbacks_exclusive _ h c, C13_none_after_unsubscribe_returned _ h c, fun hc => C13_chain 0 0 h hc⟩
+
+/-- The Set twin: every log a directed Set case prints is well bracketed, has no callback after an
+`unsubscribe()` return, and consists of true differences. -/
+theorem C13_directed_set_logs_ok (init : List Nat) (lines : List (List String)) (c : Nat) :
+    let d := Dir.run (setObj init) (Dir.setFmt init) lines
+    exclusive (d.sh.cbs c).evs = true ∧ noneAfterUnsub (d.sh.cbs c).evs = true ∧
+      (c < d.sh.ncb → trueDiffs (notes (d.sh.cbs c).evs) = true) := by
+  intro d
+  have h := C13_directed_reachable (setObj init) (Dir.setFmt init) lines
+  exact ⟨C13_callbacks_exclusive _ h c, C13_none_after_unsubscribe_returned _ h c,
+    fun hc => C13_set_notes_true_difference init h hc⟩
 
 /-- A directed case on the model (it is the first entry of the directed corpus of `harness/c13/dir.go`): three
 subscriptions of the set `{1,2}`, the second invocation of subscription 0 is gated; `Replace({2,3})` stands at that
